@@ -51,11 +51,40 @@ def effective_fields(classes: list[dict], k: int) -> list[dict]:
     return out
 
 
-def observe(classes: list[dict], postponed: bool, lab: Labels) -> list[Any]:
+def observe(classes: list[dict], postponed: bool, lab: Labels, decoy: bool = False) -> list[Any]:
     """per class: ("undefined",) | ("rejected", names, when) | ("accepted", child names, prop names)"""
     from pyoak.error import InvalidFieldAnnotations
 
-    mod = CF.build(classes, postponed)
+    if decoy:
+        # the same module first held other classes of the same names (a re-run notebook cell, a class
+        # factory called again): every field that is a child now was a property then and vice versa;
+        # the earlier classes were used before they were replaced
+        uid = CF.new_uid()
+        flipped = [{**c, "fields": [{"name": f["name"], "ann": ({"k": "scalar", "n": "int"} if CF.classify_ref(f["ann"]) == "child"
+                                                                  else {"k": "node", "n": "NodeA"})} for f in c["fields"]]}
+                   for c in classes]
+        dsrc, _ = CF.emit_module(flipped, postponed, uid)
+        mod = CF.Module(dsrc, uid)
+        if mod.error is None:
+            for c in classes:
+                try:
+                    old = mod.get(c["name"])
+                    old.get_child_fields()
+                    list(old.get_property_fields(False, False, False))
+                    old()
+                except Exception:  # noqa: BLE001
+                    pass
+            lab.tag("redefined-in-the-same-module")
+        for c in classes:
+            mod.mod.__dict__.pop(f"{c['name']}_{uid}", None)
+        src, _ = CF.emit_module(classes, postponed, uid)
+        mod.src, mod.error = src, None
+        try:
+            exec(compile(src, mod.mod.__file__, "exec", dont_inherit=True), mod.mod.__dict__)
+        except BaseException as e:  # noqa: BLE001
+            mod.error = e
+    else:
+        mod = CF.build(classes, postponed)
     try:
         out: list[Any] = []
         if mod.error is not None and not isinstance(mod.error, InvalidFieldAnnotations):
@@ -207,7 +236,7 @@ def check_chain(data: dict, lab: Labels) -> None:
 
     results = {}
     for postponed in (False, True):
-        obs = observe(classes, postponed, lab)
+        obs = observe(classes, postponed, lab, decoy=bool(data.get("decoy")))
         mode = "postponed" if postponed else "plain"
         if obs and obs[0][0] == "python-invalid":
             lab.tag("python-invalid-" + mode)
@@ -273,7 +302,8 @@ def st_chain(ctx: Ctx):
             classes.append({"name": f"C{i}", "base": f"C{i - 1}" if i else None, "fields": uniq})
         return {"classes": classes}
 
-    return st.lists(st.lists(fld, min_size=1, max_size=3), min_size=1, max_size=3).map(mk)
+    return st.tuples(st.lists(st.lists(fld, min_size=1, max_size=3), min_size=1, max_size=3), st.sampled_from([False, False, True])).map(
+        lambda t: {**mk(t[0]), "decoy": t[1]})
 
 
 PARTS = [Part("chains", check_chain, strategy=st_chain, quick=3200, thorough=100000)]
